@@ -197,3 +197,101 @@ func VerifC13Concurrent() {
 		vstub.Assert(found, "C13 the reloaded log holds everything the database held when the save started")
 	}
 }
+
+// VerifC13PendingQueue: a snapshot is saved WHILE A REPLICATION IS IN PROGRESS:
+// the replicator has fetched the newest entries of a remote chain and is stuck
+// on an older one (its provider is slow), so the stored replication queue is
+// not empty.  Saving succeeds (or says it failed); a fresh instance then loads
+// the snapshot while that block is not available at all (the peer is gone):
+// loading returns, without an error, and reconstructs exactly the log, heads
+// and view that were saved.
+func VerifC13PendingQueue() {
+	blocks := vstub.NewBlocks(nil)
+	prov := vstub.NewProvider()
+	w2 := vstub.NewIdentity("w2", prov)
+	a, envA := c13Open("a", blocks, nil, nil)
+	if a == nil {
+		return
+	}
+	ctx := context.Background()
+	addN(&a.BaseStore, 1+vstub.NdChoice("own", 2), 'a')
+	// a remote chain r0 <- r1 <- r2 written by another writer
+	var l *ipfslog.IPFSLog
+	var chain []ipfslog.Entry
+	for k := 0; k < 3; k++ {
+		var e ipfslog.Entry
+		l, e = appendAs(envA, l, a.id, w2, []byte{'r', byte('0' + k)})
+		if e == nil {
+			return
+		}
+		chain = append(chain, e)
+	}
+	stuck := vstub.NdChoice("stuck-at", 2) // the fetch of r0 or of r1 never completes
+	blocks.Hang[vstub.BlockKey(chain[stuck].GetHash())] = true
+	if err := a.Sync(ctx, []ipfslog.Entry{chain[2].Copy()}); err != nil {
+		vstub.Fail("C13 Sync failed")
+		return
+	}
+	vstub.WaitIdle()
+	vstub.Assert(len(a.Replicator().GetQueue()) > 0, "C13 harness: the replication queue is not empty while the fetch is pending")
+	vstub.Cover("replication-in-progress")
+	wantHashes := hashesOf(&a.BaseStore)
+	var wantHeads []string
+	for _, h := range a.OpLog().Heads().Slice() {
+		wantHeads = append(wantHeads, h.GetHash().String())
+	}
+	if _, err := SaveSnapshot(ctx, a); err != nil {
+		vstub.Cover("save-refused")
+		return
+	}
+	vstub.Cover("saved")
+	_ = a.Close()
+	vstub.WaitIdle()
+	// the provider of the remote chain is gone and, optionally, the blocks that
+	// were fetched but not yet joined have been collected: fetching them fails
+	delete(blocks.Hang, vstub.BlockKey(chain[stuck].GetHash()))
+	blocks.Missing[vstub.BlockKey(chain[stuck].GetHash())] = true
+	if vstub.NdChoice("fetched-blocks-kept", 2) == 0 {
+		for _, e := range chain {
+			blocks.Missing[vstub.BlockKey(e.GetHash())] = true
+		}
+	}
+	r, _ := c13Open("a", blocks, envA.Cache, envA.IPFS.Files)
+	if r == nil {
+		return
+	}
+	lerr := r.LoadFromSnapshot(ctx)
+	vstub.WaitIdle()
+	if lerr != nil {
+		vstub.Observe("load error: " + lerr.Error())
+	}
+	vstub.Assert(lerr == nil, "C13 a snapshot saved while a replication was in progress loads")
+	if lerr != nil {
+		return
+	}
+	vstub.Cover("loaded")
+	got := hashesOf(&r.BaseStore)
+	// everything that was saved is back, in order; the resumed replication may add
+	// entries of the remote chain that are still fetchable, nothing else
+	pos := 0
+	for _, h := range wantHashes {
+		for pos < len(got) && got[pos] != h {
+			pos++
+		}
+		vstub.Assert(pos < len(got), "C13 the reloaded log holds the saved log, in log order")
+		pos++
+	}
+	for _, h := range got {
+		known := false
+		for _, w := range wantHashes {
+			known = known || w == h
+		}
+		for _, e := range chain {
+			known = known || e.GetHash().String() == h
+		}
+		vstub.Assert(known, "C13 the reloaded log holds nothing but saved entries and entries of the replication that was in progress")
+	}
+	view := r.Index().Get("").([]ipfslog.Entry)
+	vstub.Assert(len(view) == len(got), "C13 the reloaded view shows the reloaded log")
+	_ = wantHeads
+}
